@@ -298,6 +298,44 @@ def _coords_by_lists(src_text):
     return src_text[:a] + new + src_text[b:]
 
 
+def _vectorised_mask(op):
+    def f(src_text):
+        a = src_text.find("    def _make_hessian_bc_mask(self, conns):")
+        if a < 0:
+            return None
+        b = src_text.find("\n\n\n", a)
+        b = len(src_text) if b < 0 else b
+        new = (
+            "    def _make_hessian_bc_mask(self, conns):\n"
+            "        nElements, nNodesPerElement = conns.shape\n"
+            "        nDofPerElement = nNodesPerElement*self.ids.shape[1]\n"
+            "        elBcFlags = self.isBc[conns,:].reshape((nElements, nDofPerElement))\n"
+            f"        return ~(elBcFlags[:,:,None] {op} elBcFlags[:,None,:])\n")
+        return src_text[:a] + new + src_text[b:]
+    return f
+
+
+def _vectorised_coords(flag_attr):
+    def f(src_text):
+        a = src_text.find("    def _make_hessian_coordinates(self, conns):")
+        b = src_text.find("    def _make_hessian_bc_mask(self, conns):")
+        if a < 0 or b < 0:
+            return None
+        new = (
+            "    def _make_hessian_coordinates(self, conns):\n"
+            "        conns = onp.array(conns)\n"
+            "        nElements, nNodesPerElement = conns.shape\n"
+            "        elShape = (nElements, nNodesPerElement*self.ids.shape[1])\n"
+            f"        elUnknownFlags = self.{flag_attr}[conns,:].reshape(elShape)\n"
+            "        elUnknowns = self.dofToUnknown[self.ids[conns,:].reshape(elShape)]\n"
+            "        isHessianEntry = elUnknownFlags[:,:,None] & elUnknownFlags[:,None,:]\n"
+            "        rowCoords = onp.broadcast_to(elUnknowns[:,None,:], isHessianEntry.shape)[isHessianEntry]\n"
+            "        colCoords = onp.broadcast_to(elUnknowns[:,:,None], isHessianEntry.shape)[isHessianEntry]\n"
+            "        return rowCoords, colCoords\n\n\n")
+        return src_text[:a] + new + src_text[b:]
+    return f
+
+
 def variants(repo):
     from optilint.selftest import Variant, sub, sub_in_func, alpha_rename, reformat
     F = "optimism/FunctionSpace.py"
@@ -339,6 +377,16 @@ def variants(repo):
             "        rowCoords = onp.zeros(nHessianEntries, dtype=int)\n        colCoords = rowCoords.copy()\n        rangeBegin = 0\n        for e,eNodes in enumerate(conns):\n",
             "        rowParts = []\n        colParts = []\n        for e,eNodes in enumerate(conns):\n") , None) if False else
         Variant("coordinates by list concatenation", F, _coords_by_lists, None),
+        Variant("vectorised mask", F, _vectorised_mask("|"), None),
+        Variant("vectorised mask with & instead of |", F, _vectorised_mask("&"), "O6/T6-hessian-coordinates-and-mask"),
+        Variant("vectorised coordinates", F, _vectorised_coords("isUnknown"), None),
+        Variant("vectorised coordinates from the constrained flags", F, _vectorised_coords("isBc"), "O6/T6-hessian-coordinates-and-mask"),
+        Variant("map by cumulative count", F, sub("        dofToUnknown[self.unknownIndices] = onp.arange(self.unknownIndices.size)",
+                                                  "        dofToUnknown = onp.where(self.isUnknown.ravel(), onp.cumsum(self.isUnknown.ravel(), dtype=int) - 1, -1)"), None),
+        Variant("map by cumulative count of the wrong mask", F, sub("        dofToUnknown[self.unknownIndices] = onp.arange(self.unknownIndices.size)",
+                                                                   "        dofToUnknown = onp.where(self.isBc.ravel(), onp.cumsum(self.isBc.ravel(), dtype=int) - 1, -1)"), "O1-O3/T5-masks-ids-map"),
+        Variant("slice filtered by sign of the map", F, sub("        return Uu[j[i]]", "        return Uu[j[j >= 0]]"), None),
+        Variant("slice filtered by negative map", F, sub("        return Uu[j[i]]", "        return Uu[j[j < 0]]"), "O4-O5/T5-scatter-gather-slice"),
         Variant("reformat FunctionSpace", F, reformat(), None),
         Variant("alpha-rename assembler", S, alpha_rename("assemble_sparse_stiffness_matrix"), None),
     ]
